@@ -176,12 +176,20 @@ func (c10) Exec(c *sim.Case, env *Env) []sim.Violation {
 				return
 			}
 			cp := append([]c10pic{}, model[op.Int(0)]...)
-			if d := world.ParseTData(op.Str(0)); d != nil {
+			if d := world.ParseTData(op.Str(0)); d != nil && w.Extra[fmt.Sprintf("c10ph%d", op.Int(0))] == true {
 				if b := d.ImageBytes("pic"); b != nil {
 					cp = append(cp, c10pic{hash: sim.Digest(b)})
 				}
 			}
 			model[ds.Slot] = cp
+			// what the base document's history says about its pictures holds for the rendering too (Appendix B12)
+			if w.Extra[fmt.Sprintf("c10loose%d", op.Int(0))] == true {
+				w.Extra[fmt.Sprintf("c10loose%d", ds.Slot)] = true
+			}
+		case "para":
+			if strings.Contains(op.Str(0), "{{#image pic}}") {
+				w.Extra[fmt.Sprintf("c10ph%d", ds.Slot)] = true // the document now holds the image placeholder the template scenario fills
+			}
 		case "rm.para", "rm.parai", "rm.elem", "t.delrow", "t.delcol", "t.clearcell", "t.clear", "t.mergeh", "t.mergev", "t.settext", "t.setftext":
 			// an edit that can remove a picture: the count clause is off for this document from here on
 			w.Extra[fmt.Sprintf("c10loose%d", ds.Slot)] = true
